@@ -31,7 +31,7 @@ class PoolGen:
         self.linked = {}
         self.w = dict(sleep=10, update=30, peer=12, reconnect=5, close=3, reopen=3, addnode=4, withdraw=3,
                       deposit=2, forged=8, mode=3, credit=2, stale=2, account=1, legacy=2, client=1, host=1, stats=1,
-                      settlemode=1, burst=0, sburst=0, wburst=0)
+                      settlemode=1, burst=0, sburst=0, wburst=0, status=2)
         if weights:
             self.w.update(weights)
         self.cfg = cfg or {}
@@ -338,6 +338,8 @@ class PoolGen:
             self.full[n] = True
         elif kind == "stats":
             self.emit({"op": "Stats"})
+        elif kind == "status":
+            self.emit({"op": "Status", "conn": self.conn_for(r.choice(NODES))})
         elif kind == "settlemode":
             self.emit({"op": "SettleMode", "fail": r.random() < 0.5})
         elif kind == "burst":
